@@ -5,6 +5,7 @@ equal-rank actions and (b) adds one seed-derived value to each continuous parame
 """
 import itertools
 import math
+import os
 
 PI = math.pi
 
@@ -434,7 +435,7 @@ def quick_w3(depth=1):
 def get(name, tier, seed):
     q = tier == "quick"
     core = lambda m, w, o: rotate(layout_core(m, w, o), 0)  # noqa: E731
-    base = {"D": 6, "faults": False, "wall_cap": 1500 if q else 7200, "state_cap": 100000}
+    base = {"D": 6, "faults": False, "wall_cap": 1500 if q else int(os.environ.get("PWMC_WALL_CAP", "1800")), "state_cap": 100000}
     if name == "C01":
         return {**base, "prop": "C01", "worlds": (SEEDS_W3[:2] + SEEDS_W1[:2] if q else SEEDS_W3 + SEEDS_W1) + rich_seeds(1 if q else 2),
                 "core": core, "probes": probes_single_ops(seed, full=not q), "depth": 2 if q else 3}
